@@ -44,7 +44,7 @@ def run(tier):
     violations = [{"kind": "broken-proof-obligation", "what": b, "no_failing_input": True, "input": b} for b in po["broken"]]
     c = Counter()
     import docs
-    dl = docrun.synthesized(sd + 71, 4 if tier == "quick" else 40, ncontracts=2, nblocks=5) + docs.analysis_failing()
+    dl = docrun.synthesized(sd + 71, 4 if tier == "quick" else 16, ncontracts=2, nblocks=5) + docs.analysis_failing()
     samples = []
     for opts in (["-greedy"], ["-greedy", "-storage", "-push0"]) if tier == "quick" else (["-greedy"], ["-greedy", "-storage"], ["-greedy", "-push0"], ["-greedy", "-size", "-partition"]):
         first = docrun.run_docs(dl, opts + ["-log"])
@@ -94,7 +94,7 @@ def run(tier):
                 if seq != log[k]:
                     tl[k] = seq
                     edits.append(("targeted-" + how, tl))
-            for _ in range(4 if tier == "quick" else 30):
+            for _ in range(4 if tier == "quick" else 12):
                 edits.append(tamper(rng, log, all_ids or ["ADD"]))
             for kind, tl in edits:
                 kinds.append(kind)
